@@ -3,7 +3,9 @@
      p.sharded ( K P stranded perm? thr mode variant maxlen reads orders ) -> ( buckets shard_graphs final ) | !
      p.direct  ( K stranded thr mode route reads order )                   -> graph | !
      chk.c04, chk.c06.graph ( K stranded mode gA gB )                       -> 1 iff chk_same_assembly
-     chk.graph_exact, chk.c06.stranded ( K stranded thr reads g )           -> 1 iff chk_graph_exact *)
+     chk.graph_exact, chk.c06.stranded ( K stranded thr reads g )           -> 1 iff chk_graph_exact
+     chk.unitig ( K stranded mode reads g )                                 -> 1 iff chk_unitig (nodes = maximal
+                                                                               unbranched paths of the graph's own links; payloads) *)
 From Coq Require Import NArith List Bool String.
 From DBG Require Import Interop.Val Spec.Dna Algo.Compress Algo.Pipeline Check.GraphCheck Check.PipelineCheck
   Interop.DispatchGraph.
@@ -27,7 +29,7 @@ Definition v_perm (v : val) : option (option (list N)) :=
   end.
 
 Definition pipeline_ops : list string :=
-  ["p.sharded"; "p.direct"; "chk.c04"; "chk.c06.graph"; "chk.graph_exact"; "chk.c06.stranded"]%string.
+  ["p.sharded"; "p.direct"; "chk.c04"; "chk.c06.graph"; "chk.graph_exact"; "chk.c06.stranded"; "chk.unitig"]%string.
 
 Definition d_pipeline (op : string) (v : val) : option val :=
   if negb (existsb (String.eqb op) pipeline_ops) then None
@@ -61,6 +63,16 @@ Definition d_pipeline (op : string) (v : val) : option val :=
         | _, _, _ => None
         end
     | VL [] => Some (VN 1)              (* the implementation panicked: reported by the p.* line of the same case *)
+    | _ => None
+    end
+  else if String.eqb op "chk.unitig" then
+    match v with
+    | VL [VN k; st; VN mode; rs; g] =>
+        match vbool st, v_lreads rs, v_graph g with
+        | Some s, Some reads, Some g' => Some (ofbool (chk_unitig (N.to_nat k) s mode reads g'))
+        | _, _, _ => None
+        end
+    | VL [] => Some (VN 1)
     | _ => None
     end
   else
